@@ -15,6 +15,9 @@
         "dummy": step ; checkpoint            (harness algorithm, checkpoint after every step)
         "iter" : IterativeSweeps.run: stopping_criterion ; checkpoint unless first ; iteration
         "tevo" : RealTimeEvolution.run_algorithm: engine.run ; measurement ; checkpoint
+                 engine.run = TimeEvolutionAlgorithm.evolve: NSub times evolve_step on psi, and only after the
+                 loop evolved_time / trunc_err are advanced; no checkpoint inside (SubCkpt = TRUE is the witness
+                 configuration with a checkpoint between two steps, which TLC refutes)
      checkpoint event                            : [measurement (measure_at_algorithm_checkpoints),
                                                    priority 0] ; save_at_checkpoint (priority -100)
      save_results (Protocol "replace", the code) : open(bak, trunc) ; write+ ; close ; rename bak -> out
@@ -34,8 +37,11 @@
      Restart  : nothing loadable on disk: the same job is started again with overwrite_output.
 
    Abstract content of a results file = the in-memory `results` at the moment save_results copied
-   them: [k = progress of the algorithm, acc = accumulated truncation error in units of one step,
-   meas = sequence of measurements (each <<k, acc>> at the time it was taken), fin = finished_run]. *)
+   them: [k = progress of the algorithm as the engine's bookkeeping sees it (sweeps, evolved_time in units
+   of one engine.run), p = progress of the state psi itself (update steps applied to it), acc = accumulated
+   truncation error in units of one engine.run, meas = sequence of measurements (each <<k, acc, p>> at the
+   time it was taken), fin = finished_run].  A file is a checkpoint of the abstract run only if these belong
+   to the same step (SavedIsCheckpoint). *)
 EXTENDS Naturals, Sequences, FiniteSets, TLC
 
 CONSTANTS Kind,         \* "dummy" | "iter" | "tevo"
@@ -44,6 +50,9 @@ CONSTANTS Kind,         \* "dummy" | "iter" | "tevo"
           MinSweeps,    \* Kind "iter": option min_sweeps (is_converged is consulted once sweeps > min_sweeps)
           GuardStats,   \* Kind "iter": is_converged() copes with empty statistics (the code: TRUE, since 4a7cb42;
                         \* FALSE = witness configuration, refuted)
+          NSub,         \* Kind "tevo": evolve_step calls per engine.run (option N_steps); 1 for the other kinds
+          SubCkpt,      \* Kind "tevo": the engine emits its checkpoint also between two evolve_step calls
+                        \* (the code: FALSE; TRUE = witness configuration, refuted)
           TruncErr,     \* Kind "tevo": every step truncates (non-zero contribution to trunc_err)
           SavesAcc,     \* the engine's resume data contain the accumulated error (the code: TRUE, since 1170ece;
                         \* FALSE = witness configuration, refuted)
@@ -77,18 +86,18 @@ Complete(c) == [st |-> "complete", c |-> c]
 Exists(f) == f.st # "absent"
 IsComplete(f) == f.st = "complete"
 
-Fresh == [k |-> 0, acc |-> 0, meas |-> <<>>, fin |-> FALSE]
-NewEngine == [first |-> TRUE, stats |-> FALSE]
+Fresh == [k |-> 0, p |-> 0, acc |-> 0, meas |-> <<>>, fin |-> FALSE]
+NewEngine == [first |-> TRUE, stats |-> FALSE, i |-> 0, ck |-> FALSE]
 File(n) == IF n = "out" THEN out ELSE bak
 
 \* ----- the uninterrupted run (what the property compares with) -----
 A(k) == IF TruncErr THEN k ELSE 0
+P(k) == IF Kind = "tevo" THEN k * NSub ELSE k        \* state of psi that belongs to bookkeeping value k
+M(k) == <<k, A(k), P(k)>>
 IdealMeas ==
-    CASE Kind = "dummy" -> << <<0, 0>> >> \o (IF MeasAtCkpt THEN [i \in 1..NSteps |-> <<i, A(i)>>] ELSE <<>>)
-                                       \o << <<NSteps, A(NSteps)>> >>
-      [] Kind = "iter"  -> << <<0, 0>> >> \o (IF MeasAtCkpt THEN [i \in 1..(NSteps - 1) |-> <<i, A(i)>>] ELSE <<>>)
-                                       \o << <<NSteps, A(NSteps)>> >>
-      [] Kind = "tevo"  -> << <<0, 0>> >> \o [i \in 1..NSteps |-> <<i, A(i)>>]
+    CASE Kind = "dummy" -> << M(0) >> \o (IF MeasAtCkpt THEN [i \in 1..NSteps |-> M(i)] ELSE <<>>) \o << M(NSteps) >>
+      [] Kind = "iter"  -> << M(0) >> \o (IF MeasAtCkpt THEN [i \in 1..(NSteps - 1) |-> M(i)] ELSE <<>>) \o << M(NSteps) >>
+      [] Kind = "tevo"  -> << M(0) >> \o [i \in 1..NSteps |-> M(i)]
 IsPrefix(s, t) == Len(s) <= Len(t) /\ SubSeq(t, 1, Len(s)) = s
 
 Init == /\ out = Absent /\ bak = Absent
@@ -144,7 +153,7 @@ SimInit ==
     /\ last' = Tau
     /\ UNCHANGED <<out, bak, mem, lfc, sv, ret, saved, durable, crashes>>
 
-Measured(m) == [m EXCEPT !.meas = Append(@, <<m.k, m.acc>>)]
+Measured(m) == [m EXCEPT !.meas = Append(@, <<m.k, m.acc, m.p>>)]
 
 MeasInit ==
     /\ pc = "meas_init"
@@ -153,7 +162,7 @@ MeasInit ==
     /\ pc' = "loop"
     /\ UNCHANGED <<out, bak, eng, lfc, sv, ret, saved, durable, crashes>>
 
-Stepped(m) == [m EXCEPT !.k = @ + 1, !.acc = @ + (IF TruncErr THEN 1 ELSE 0)]
+Stepped(m) == [m EXCEPT !.k = @ + 1, !.p = @ + 1, !.acc = @ + (IF TruncErr THEN 1 ELSE 0)]
 
 \* top of the engine loop
 LoopDummy ==
@@ -178,7 +187,7 @@ LoopIter ==
 Iterate ==
     /\ Kind = "iter" /\ pc = "iterate"
     /\ mem' = Stepped(mem)
-    /\ eng' = [first |-> FALSE, stats |-> TRUE]
+    /\ eng' = [eng EXCEPT !.first = FALSE, !.stats = TRUE]
     /\ last' = [op |-> "alg", k |-> mem.k + 1]
     /\ pc' = "loop"
     /\ UNCHANGED <<out, bak, lfc, sv, ret, saved, durable, crashes>>
@@ -187,9 +196,28 @@ LoopTevo ==
     /\ Kind = "tevo" /\ pc = "loop"
     /\ IF mem.k >= NSteps
        THEN pc' = "post" /\ last' = Tau /\ UNCHANGED mem
-       ELSE pc' = "tevo_meas" /\ mem' = Stepped(mem) /\ last' = [op |-> "alg", k |-> mem.k + 1]
+       ELSE pc' = "tevo_run" /\ last' = Tau /\ UNCHANGED mem
+    /\ eng' = [eng EXCEPT !.i = 0, !.ck = FALSE]
     /\ ret' = "loop"
-    /\ UNCHANGED <<out, bak, eng, lfc, sv, saved, durable, crashes>>
+    /\ UNCHANGED <<out, bak, lfc, sv, saved, durable, crashes>>
+
+\* engine.run() -> TimeEvolutionAlgorithm.evolve(N_steps, dt): the loop over evolve_step changes psi only;
+\* evolved_time and trunc_err are advanced after the loop.  (SubCkpt: checkpoint before every step but the first.)
+TevoRun ==
+    /\ Kind = "tevo" /\ pc = "tevo_run"
+    /\ IF eng.i >= NSub
+       THEN /\ mem' = [mem EXCEPT !.k = @ + 1, !.acc = @ + (IF TruncErr THEN 1 ELSE 0)]
+            /\ last' = [op |-> "alg", k |-> mem.k + 1]
+            /\ pc' = "tevo_meas" /\ ret' = "loop" /\ UNCHANGED eng
+       ELSE IF SubCkpt /\ eng.i > 0 /\ ~eng.ck
+       THEN /\ eng' = [eng EXCEPT !.ck = TRUE]
+            /\ last' = Tau
+            /\ pc' = "ckpt" /\ ret' = "tevo_run" /\ UNCHANGED mem
+       ELSE /\ mem' = [mem EXCEPT !.p = @ + 1]
+            /\ eng' = [eng EXCEPT !.i = @ + 1, !.ck = FALSE]
+            /\ last' = [op |-> "sub", p |-> mem.p + 1]
+            /\ UNCHANGED <<pc, ret>>
+    /\ UNCHANGED <<out, bak, lfc, sv, saved, durable, crashes>>
 
 TevoMeas ==
     /\ pc = "tevo_meas"
@@ -375,7 +403,7 @@ Crash ==
 Resume(f) ==
     /\ pc = "crashed"
     /\ IsComplete(File(f)) /\ ~File(f).c.fin
-    /\ mem' = [k |-> File(f).c.k, acc |-> IF SavesAcc THEN File(f).c.acc ELSE 0,
+    /\ mem' = [k |-> File(f).c.k, p |-> File(f).c.p, acc |-> IF SavesAcc THEN File(f).c.acc ELSE 0,
                meas |-> File(f).c.meas, fin |-> FALSE]
     /\ lfc' = TRUE
     /\ pc' = "fx_stat_out"
@@ -409,6 +437,7 @@ DoLoopDummy    == Step(LoopDummy)
 DoLoopIter     == Step(LoopIter)
 DoIterate      == Step(Iterate)
 DoLoopTevo     == Step(LoopTevo)
+DoTevoRun      == Step(TevoRun)
 DoTevoMeas     == Step(TevoMeas)
 DoCkpt         == Step(Ckpt)
 DoCkptMeas     == Step(CkptMeas)
@@ -439,7 +468,7 @@ DoRestart      == Step(Restart)
 \* merged write calls from the recorded event)
 NextNoWrite ==
         \/ DoFxStatOut \/ DoFxStatBak \/ DoFxOpenBak \/ DoFxWriteBak \/ DoFxCloseBak
-        \/ DoSimInit \/ DoMeasInit \/ DoLoopDummy \/ DoLoopIter \/ DoIterate \/ DoLoopTevo \/ DoTevoMeas
+        \/ DoSimInit \/ DoMeasInit \/ DoLoopDummy \/ DoLoopIter \/ DoIterate \/ DoLoopTevo \/ DoTevoRun \/ DoTevoMeas
         \/ DoCkpt \/ DoCkptMeas \/ DoPost \/ DoPostMeas \/ DoDone
         \/ DoSvStatOut \/ DoSvStatBak \/ DoSvUnlinkBak \/ DoSvRename \/ DoSvUnlinkOut \/ DoSvOpen
         \/ DoSvClose \/ DoSvStatBak2 \/ DoSvUnlinkBak2
@@ -475,8 +504,14 @@ MeasPrefixOfIdeal ==
 
 \* ... and a run that finishes, finishes with the uninterrupted run's results
 FinalEqual ==
-    pc = "done" => /\ mem.k = NSteps /\ mem.meas = IdealMeas
+    pc = "done" => /\ mem.k = NSteps /\ mem.p = P(NSteps) /\ mem.meas = IdealMeas
                    /\ out = Complete(mem) /\ mem.fin
+
+\* whatever is written to a results file is a checkpoint of the abstract run: the state psi, the engine's
+\* bookkeeping (evolved_time / sweeps) and the measurement list belong to the same step
+Consistent(c) == /\ c.p = P(c.k)
+                 /\ Kind = "tevo" => Len(c.meas) = c.k + 1
+SavedIsCheckpoint == \A f \in {out, bak} : f.st \in {"partial", "complete"} => Consistent(f.c)
 
 \* "Resuming from any checkpoint finishes the simulation": the resumed run does not abort
 ResumeRuns == pc # "error"
